@@ -270,8 +270,7 @@ func cacheCore(w *World, r *Report, la *LockAn, full bool) {
 			}
 		}
 		r.Check(okDel && okSub, "R5", "clearKey/delete-and-unaccount", ck.Pos(), "clearKey deletes the key unconditionally under the lock=%v and subtracts its size when present=%v", okDel, okSub)
-		checkGB(w, r, la, "R5", []GuardRow{{Pkg: pkgUtils, Struct: "MemoryCache", Fields: []string{"cache", "currentCacheSize"}, Mutex: "mutex", MinSites: 12,
-			Except: map[string]string{"MemoryCache).Set": "advisory pre-check of currentCacheSize outside the lock is an early exit only; rule cache.Set/size-check-in-critical-section requires the deciding check under the lock"}}})
+		checkGB(w, r, la, "R5", []GuardRow{{Pkg: pkgUtils, Struct: "MemoryCache", Fields: []string{"cache", "currentCacheSize", "calculateCacheSize", "calculateSizeFunc", "maxCacheSize"}, Mutex: "mutex", MinSites: 20}})
 	}
 }
 
